@@ -632,8 +632,47 @@ def read_trace(prefix):
     return events
 
 
+def run_mapping_raw(config):
+    """the real run_mapping on the caller's OWN dict object (no protective
+    copy, unlike pipeline.run_mapping): returns dict(ok, error, json)"""
+    from cell_type_mapper.cli.from_specified_markers import run_mapping as rm
+    err = None
+    with pipeline.quiet() as buf:
+        try:
+            rm(config=config, output_path=config['extended_result_path'],
+               log_path=config.get('log_path'),
+               hdf5_output_path=config.get('hdf5_result_path'))
+        except BaseException as e:   # noqa
+            if isinstance(e, KeyboardInterrupt):
+                raise
+            err = e
+    out = None
+    pth = pathlib.Path(config['extended_result_path'])
+    if pth.is_file():
+        try:
+            out = json.loads(pth.read_text())
+        except Exception:
+            out = None
+    return {'ok': err is None, 'error': err, 'json': out,
+            'stdout': buf.getvalue()}
+
+
+def dict_diff(a, b, path=''):
+    """[(path, before, after)] of two nested dicts / lists"""
+    if isinstance(a, dict) and isinstance(b, dict):
+        out = []
+        for k in sorted(set(a) | set(b), key=str):
+            if k not in a or k not in b:
+                out.append(('%s/%s' % (path, k), a.get(k, '<absent>'),
+                            b.get(k, '<absent>')))
+            else:
+                out += dict_diff(a[k], b[k], '%s/%s' % (path, k))
+        return out
+    return [] if a == b and type(a) == type(b) else [(path, a, b)]
+
+
 def run_problem(problem, cfg, tree=None, markers=None, want_trace=True,
-                workdir=None, tmp_dir=True):
+                workdir=None, tmp_dir=True, reuse=None, edits=None):
     """real run_mapping. returns dict(ok, error, results, out_tree, chunks).
     workdir: a directory the caller keeps across several runs (same-process
     history: the stats / query / marker files are RE-WRITTEN at the same paths);
@@ -643,12 +682,13 @@ def run_problem(problem, cfg, tree=None, markers=None, want_trace=True,
     if workdir is None:
         with pipeline.workdir('ctmverif_ll_') as d:
             return _run_problem_in(d, problem, cfg, tree, markers, want_trace,
-                                   tmp_dir)
+                                   tmp_dir, None, None)
     return _run_problem_in(pathlib.Path(workdir), problem, cfg, tree, markers,
-                           want_trace, tmp_dir)
+                           want_trace, tmp_dir, reuse, edits)
 
 
-def _run_problem_in(d, problem, cfg, tree, markers, want_trace, tmp_dir):
+def _run_problem_in(d, problem, cfg, tree, markers, want_trace, tmp_dir,
+                    reuse, edits):
     import shutil
     import tempfile
     for sub in ('out', 'tmp', 'systmp'):
@@ -658,7 +698,7 @@ def _run_problem_in(d, problem, cfg, tree, markers, want_trace, tmp_dir):
         f.unlink()
     stats, q, m = write_problem(problem, d, encoding=cfg['encoding'],
                                 tree=tree, markers=markers)
-    config = pipeline.mapping_config(
+    fresh_config = pipeline.mapping_config(
         q, stats, m, d / 'out', (d / 'tmp') if tmp_dir else None,
         n_processors=cfg['n_processors'], chunk_size=cfg['chunk_size'],
         bootstrap_factor=cfg['bootstrap_factor'],
@@ -667,6 +707,19 @@ def _run_problem_in(d, problem, cfg, tree, markers, want_trace, tmp_dir):
         flatten=cfg['flatten'], drop_level=cfg['drop_level'], csv=False,
         min_markers=cfg.get('min_markers', 1),
         bootstrap_factor_lookup=cfg.get('bootstrap_factor_lookup'))
+    # reuse: a holder dict kept by the caller across several runs in ONE
+    # workdir -- the very same config dict OBJECT is handed to run_mapping
+    # again (as a script looping over references would); `edits` = what the
+    # caller changes in his own dict before this call
+    if reuse is not None and 'config' in reuse:
+        config = reuse['config']
+        for k, v in (edits or {}).items():
+            config[k] = v
+    else:
+        config = fresh_config
+        if reuse is not None:
+            reuse['config'] = config
+    snapshot = copy.deepcopy(config)
     old = os.environ.get('CELL_TYPE_MAPPER_VERIF_TRACE')
     old_tmpdir = os.environ.get('TMPDIR')
     old_tempdir = tempfile.tempdir
@@ -677,7 +730,7 @@ def _run_problem_in(d, problem, cfg, tree, markers, want_trace, tmp_dir):
     else:
         os.environ.pop('CELL_TYPE_MAPPER_VERIF_TRACE', None)
     try:
-        res = pipeline.run_mapping(config)
+        res = run_mapping_raw(config)
     finally:
         tempfile.tempdir = old_tempdir
         if old_tmpdir is None:
@@ -698,11 +751,28 @@ def _run_problem_in(d, problem, cfg, tree, markers, want_trace, tmp_dir):
         nodes = [e for e in events if e['kind'] == 'node']
     left = sorted(x.name for x in (d / 'tmp').iterdir())
     out = res['json'] or {}
+    mutated = dict_diff(snapshot, config)
     return {'ok': res['ok'],
             'error': None if res['ok'] else repr(res['error'])[:300],
             'results': out.get('results'),
             'out_tree': out.get('taxonomy_tree'),
-            'chunks': chunks, 'nodes': nodes, 'scratch_left': left}
+            'chunks': chunks, 'nodes': nodes, 'scratch_left': left,
+            'mutated': [[p, repr(a)[:80], repr(b)[:80]]
+                        for p, a, b in mutated] or None}
+
+
+def mutation_violation(ctx, prop, r, detail):
+    """generic predicate of every pipeline run of the level-loop suites:
+    run_mapping does not alter the config dict it is given (a caller re-using
+    his dict must get what he configured)"""
+    if r.get('mutated'):
+        key = r['mutated'][0][0].strip('/').split('/')[0]
+        ctx.violation('%s/config-mutated/%s' % (prop, key),
+                      'run_mapping altered the config dict it was given: %r'
+                      % (r['mutated'][:3],),
+                      dict(detail, mutated=r['mutated']))
+        return True
+    return False
 
 
 def flatten_root_genes_fail(problem, markers, nodes):
